@@ -16,13 +16,14 @@ import c12_gen as G
 
 META = {
     "category": "proof",
-    "text": "Coq theorems (Log/Props_C12.v, closed under the global context) over an executable model of sst/src/log.rs (WriteBatch, LogBuilder::_append/append_split/true_up, LogIterator::next/next_frame/next_header/true_up, the prototk header and entry codecs) for every block size > HEADER_MAX_SIZE, every batch size/count and an arbitrary crc function: reading a written log returns exactly the entries of the successfully appended batches in order and ends cleanly; reading ANY byte prefix of it returns exactly the batches wholly inside the prefix and then ends or errors; the writer never panics, lays frames out as whole | first+padding+second with padding <= HEADER_MAX_SIZE, fails only at the two size checks; the reader is total on arbitrary bytes; plus, for every schedule of ConcurrentLogBuilder::append over the wait-list-level model of sync42's WorkCoalescingQueue that area Sync42 proves correct (two copies of Sync42/ModelWcq.v instantiated with WriteCoalescingCore and FsyncCoalescingCore and glued as append glues them; threads as program counters, mutexes, condition variables with spurious wake-ups, rings smaller than the number of threads; no atomicity assumed): no panic, the file is the sequential log of the merged batches (each linked request at most once, whole, in link order), a call returns Ok only after an fdatasync covering its bytes completed, and an acknowledged batch is read back from every cut at or after the durable mark. The model is tied to the code by differential runs on boundary-solved logs (0..25 bytes before the 1 MiB boundary), all truncations in windows around boundaries/frame ends, mutated and raw malformed files, multi-threaded appends (file decomposition + strace ordering of write/fdatasync/ack).",
-    "note": "Trusted: Coq kernel; tools/constants.py; ExtrOcamlBasic extraction + ocaml/log/mx_log.ml (incl. its crc32c); harness c12; strace. crc32c is an arbitrary function (no property used). I/O errors other than short reads, and the BufWriter/BufReader internals, are outside the model. The concurrent theorems rest on Sync42's invariant of the queue machine (imported, not re-proved) and on: ModelWcq.v being the real queue (C18's correspondence), the four glue lines of append, and the meaning of fdatasync.",
+    "text": "Coq theorems (Log/Props_C12.v, closed under the global context) over an executable model of sst/src/log.rs (WriteBatch, LogBuilder::_append/append_split/true_up, LogIterator::next/next_frame/next_header/true_up, the prototk header and entry codecs) for every block size > HEADER_MAX_SIZE, every batch size/count and an arbitrary crc function: reading a written log returns exactly the entries of the successfully appended batches in order and ends cleanly; reading ANY byte prefix of it returns exactly the batches wholly inside the prefix and then ends or errors; a consumer that keeps calling next() after an error gets a clean end on every cut, never an entry (C12_nothing_after_error; fix 71e5745); the writer never panics, lays frames out as whole | first+padding+second with padding <= HEADER_MAX_SIZE, fails only at the two size checks; the reader is total on arbitrary bytes; plus, for every schedule of ConcurrentLogBuilder::append over the wait-list-level model of sync42's WorkCoalescingQueue that area Sync42 proves correct (two copies of Sync42/ModelWcq.v instantiated with WriteCoalescingCore and FsyncCoalescingCore and glued as append glues them; threads as program counters, mutexes, condition variables with spurious wake-ups, rings smaller than the number of threads; no atomicity assumed): no panic, the file is the sequential log of the merged batches (each linked request at most once, whole, in link order), a call returns Ok only after an fdatasync covering its bytes completed, no fdatasync is issued or trusted after one has failed (fix be5f137), and an acknowledged batch is read back from every cut at or after the durable mark. The model is tied to the code by differential runs on boundary-solved logs (0..25 bytes before the 1 MiB boundary), all truncations in windows around boundaries/frame ends, mutated and raw malformed files, multi-threaded appends (file decomposition + strace ordering of write/fdatasync/ack, also with one fdatasync made to fail by strace fault injection); after every read error both sides call next() three more times and the results are compared.",
+    "note": "Outside the property and not modelled: ConcurrentLogBuilder::fsync() (fsync_cq.do_work(0) returns true without a system call when it is alone, although its doc says all previously written data is durable; lsmtk does not call it) and the `poison` flag (written, never read; the fsync core is sticky instead). Trusted: Coq kernel; tools/constants.py; ExtrOcamlBasic extraction + ocaml/log/mx_log.ml (incl. its crc32c); harness c12; strace. crc32c is an arbitrary function (no property used). I/O errors other than short reads, and the BufWriter/BufReader internals, are outside the model. The concurrent theorems rest on Sync42's invariant of the queue machine (imported, not re-proved) and on: ModelWcq.v being the real queue (C18's correspondence), the four glue lines of append, and the meaning of fdatasync.",
 }
 
 PROPS = "theories/Log/Props_C12.v"
 MODULE = "Log.Props_C12"
 GC = "o=400,s=16M"
+AGAIN = "3"      # after an error both sides call next() this many more times and print what comes
 
 
 def run_parallel(exe, lines, workdir, tag, nproc, env=None, prefix=""):
@@ -116,6 +117,9 @@ def oracle_case(case, impl_secs):
             bad.append(("wrong-prefix", "cut %s: read %s batches, %d are wholly inside the prefix" % (cut, d["j"], want_j)))
         if not (d["o"] == "end" or d["o"].startswith("err:")):
             bad.append(("bad-outcome", r))
+        if "entry(" in d["o"]:
+            # a consumer that calls next() again after the error gets entries: of a torn batch
+            bad.append(("entries-after-error", "cut %s -> %s" % (cut, r[:300])))
         if n == flen and d["o"] != "end":
             # an untruncated log must end cleanly
             bad.append(("untruncated-log-errors", r))
@@ -159,9 +163,9 @@ def run(chk):
     t0 = time.time()
     impl_lines = [c.impl_line() for c in cases]
     model_lines = [c.model_line() for c in cases]
-    impl_out = run_parallel(hxbin, impl_lines, chk.work, "impl", nproc)
+    impl_out = run_parallel(hxbin, impl_lines, chk.work, "impl", nproc, env={"C12_AGAIN": AGAIN})
     t1 = time.time()
-    model_out = run_parallel(mx, model_lines, chk.work, "model", nproc, env={"OCAMLRUNPARAM": GC}, prefix="ulimit -s unlimited; ")
+    model_out = run_parallel(mx, model_lines, chk.work, "model", nproc, env={"OCAMLRUNPARAM": GC, "C12_AGAIN": AGAIN}, prefix="ulimit -s unlimited; ")
     t2 = time.time()
 
     corr_bad, prop_bad = [], []
@@ -188,7 +192,7 @@ def run(chk):
         n_cuts += sum(1 for m, cut in c.reads if cut != "-")
         for r in isec[2:]:
             if r != "PANIC":
-                o = parse_read(r).get("o", "?")
+                o = parse_read(r).get("o", "?").split("+")[0]
                 errkinds[o] = errkinds.get(o, 0) + 1
         if c.nontrivial():
             distinct.add(c.impl_line())
@@ -254,8 +258,10 @@ def replay(path):
     if isinstance(case, str) and obj.get("under_strace"):
         info = {"runs": 0, "acks_checked": 0, "fdatasyncs": 0, "writes": 0, "bad": []}
         d = os.path.join(vlib.WORK, "replay", "C12", "strace_replay")
+        import re
+        mi = re.search(r"inject_when=(\d+)", str(obj.get("detail")))
         for _ in range(5):          # the schedule is not reproducible: a few attempts
-            G.strace_one(hxbin, case, d, info)
+            G.strace_one(hxbin, case, d, info, inject_when=int(mi.group(1)) if mi else None)
         print("strace   :", {k: v for k, v in info.items() if k != "bad"})
         print("verdict  :", [b[:2] for b in info["bad"]] or "holds (in 5 runs)")
         return 1 if info["bad"] else 0
@@ -267,7 +273,7 @@ def replay(path):
         print("verdict  :", bad or "holds")
         return 1 if bad else 0
     c = G.Case.from_json(case, "replay")
-    p = subprocess.run([hxbin], input=(c.impl_line() + "\n").encode(), stdout=subprocess.PIPE)
+    p = subprocess.run([hxbin], input=(c.impl_line() + "\n").encode(), stdout=subprocess.PIPE, env=dict(os.environ, C12_AGAIN=AGAIN))
     o = p.stdout.decode().strip()
     print("impl now :", o[:3000])
     bad = oracle_case(c, split_out(o))
